@@ -231,10 +231,10 @@ def run_scenarios(ctx, scenarios, name="cons", shards=8, timeout=1500):
             drs = ctx.tlc_trace("FeederConfTrace", "FeederConfTrace.cfg", itrace, shards=4, name="feederconf-" + name)
             nd, fst, first = 0, {}, None
             for r in drs:
-                for lst in r.printed("DRIFT"):
+                for lst in r.printed("DRIFT")[:1]:
                     nd += len(lst)
                     first = first or (lst[0] if lst else None)
-                for d in r.printed("STATS"):
+                for d in r.printed("STATS")[:1]:
                     for k, v in d.items():
                         fst[k] = fst.get(k, 0) + v
             stats["feederconf"] = dict(fst, drift_events=nd)
